@@ -511,6 +511,16 @@ def c02(ctx):
         if ok and base != {"Ampersand", "Comma", "ApostropheNApostrophe"}:
             ok, why = False, "the unconditional separators are %s" % sorted(base or [])
         rep.ob("C02.R5", "and-separates-iff-comma-not-required", ok, why, ps.loc(), how="{&, ',', 'n'} + and unless require_comma")
+    # which separators a list accepts is chosen where the list is written, not by parser state
+    pcs = common.who_calls(F, lambda c: c.get("def") == PARSER + "parse_parameter_list")
+    for b_, bi_, t_ in pcs:
+        flag = t_["args"][-1]
+        okc = flag.get("const") is not None or all(d[0] == "const" for d, _ in origins(b_, flag))
+        rep.ob("C02.R5", "separator-set-chosen-statically::" + common.top_fn(F, b_).path.rsplit("::", 1)[-1], okc,
+               "" if okc else "%s decides at run time (from %s) whether `and` separates the elements of this list: the same words group differently depending on what surrounds them" % (
+                   common.top_fn(F, b_).path.rsplit("::", 1)[-1], sorted({(".".join(p) if d[0] == "param" else d[0]) for d, p in origins(b_, flag)})),
+               b_.loc(t_["line"]), how="require_comma is a literal")
+    rep.ob("C02.R5", "separator-set-chosen-statically::sites", len(pcs) >= 2, "" if len(pcs) >= 2 else "only %d call sites of parse_parameter_list" % len(pcs), None, how="%d call sites" % len(pcs))
     tw = F.fn("frontend::lexer::Lexer::<'a>::tokenize_word")
     if tw is None:
         rep.fail("C02.R5", "anchor::tokenize_word", "Lexer::tokenize_word not found")
